@@ -72,6 +72,8 @@ class Canon(object):
             return ('sock', c.idx, o.tls, o.detached, c.closed, c.shut, c.eof, c.err is not None,
                     tuple(x if isinstance(x, bytes) else ('eof' if x is W._EOF else 'err') for x in c.inbox),
                     c.record)
+        if type(o).__name__ == 'CoopLock':
+            return ('coop-lock', o.owner, o.depth)
         if isinstance(o, (W.SeqLock,)):
             return ('lock', o.held)
         if isinstance(o, (W.SeqRLock,)):
